@@ -36,6 +36,21 @@ def run_and_judge(label, cases, work, ev, drv, prop, docs=None, nsamples=2):
     return mine
 
 
+def pool_texts(work, fams):
+    """the texts of the hand-shaped evaluation families (spec/gen/eval_pools.ndjson) as language cases: does the text compile, to which tree"""
+    import eng_eval
+    c = work.path("pooltexts.cases")
+    seen = set()
+    with open(c, "w") as f:
+        for line in open(eng_eval.POOLS):
+            r = json.loads(line)
+            key = json.dumps(r["text"])
+            if r["fam"] in fams and key not in seen:
+                seen.add(key)
+                f.write(json.dumps({"e": "lang", "text": r["text"]}) + "\n")
+    return c
+
+
 def run(prop, tier, seed, work, ev):
     t = TIERS[tier]
     drv = build_driver()
@@ -64,6 +79,8 @@ def run(prop, tier, seed, work, ev):
         c = work.path("wrap.cases")
         gen(work, "wrap", c, t["wrapN"])
         rejects += run_and_judge("parentheses around every span of every sentence <= %d tokens" % t["wrapN"], c, work, ev, drv, prop)
+        c = pool_texts(work, {"litop", "keyword", "hash", "bool", "errpair", "compose", "confuse", "deep", "alias", "nest"})
+        rejects += run_and_judge("the texts of the hand-shaped evaluation families (literal operands, keyword-like names, hashes, formulas, compositions)", c, work, ev, drv, prop)
         c = work.path("ws.cases")
         gen(work, "ws", c, 3)
         rejects += run_and_judge("every sentence <= 3 tokens with CR / CR LF / runs of blanks between, before and after its tokens", c, work, ev, drv, prop)
@@ -95,6 +112,12 @@ def run(prop, tier, seed, work, ev):
         gen(work, "chains", c, t["chains"])
         rejects += run_and_judge("operator chains: primary + every sequence of <= %d postfix operators" % t["chains"], c, work, ev, drv, prop,
                                  docs=c + ".docs")
+        c = work.path("wrap.cases")
+        gen(work, "wrap", c, t["wrapN"])
+        rejects += run_and_judge("explicit parentheses around every span of every sentence <= %d tokens: the tree is that of the grouped reading" % t["wrapN"],
+                                 c, work, ev, drv, prop)
+        c = pool_texts(work, {"litop", "keyword", "hash", "bool", "deep", "alias", "nest", "inflate"})
+        rejects += run_and_judge("the texts of the hand-shaped evaluation families: tree of each", c, work, ev, drv, prop)
         toks = work.path("rtoks.in")
         e = dict(os.environ, GEN_MAXLEN=str(t["maxlen"]))
         subprocess.check_call([drv, "gen", "lang-toks", str(seed), str(t["rtoks"]), toks], env=e)
